@@ -217,17 +217,23 @@ type profile struct {
 	pInitLimit  int   // % of histories that begin with the authority raising the passthrough limit
 	pGasHook    int   // % of Hyperlane forwardings that go through a gas paymaster of the chain
 	pExtPanic   int   // % of orbiter packets during which an external module panics
+	wSend       int   // weight of a user's own bank send among the operation kinds
 }
 
 // share of Hyperlane forwardings through a gas paymaster, per profile (8 where not listed)
 var gasHookShare = map[string]int{"C02": 20, "C05": 40, "C11": 30, "C01": 12, "C03": 12, "C14": 12}
 
+var sendWeight = map[string]int{"C11": 8, "C14": 7, "C01": 4, "mix": 3}
 var extPanicShare = map[string]int{"C03": 12, "C01": 7, "C14": 6, "mix": 4, "C02": 3}
 
 func init() {
 	for k, p := range profiles {
 		if p.pExtPanic == 0 {
 			p.pExtPanic = extPanicShare[k]
+			profiles[k] = p
+		}
+		if p.wSend == 0 {
+			p.wSend = sendWeight[k]
 			profiles[k] = p
 		}
 		if p.pGasHook == 0 {
